@@ -18,6 +18,7 @@ use dmntk_feel::{AstNode, Name, Scope};
 use serde_json::json;
 use std::collections::BTreeSet;
 
+pub mod crossargs;
 pub mod folded;
 pub mod positions;
 
@@ -2026,6 +2027,7 @@ pub fn run_with(cfg: &Cfg, property: &str) -> Report {
     partial_positions_family(cfg, &mut rep, &mut model);
     folded::folded_family(cfg, &mut rep, &mut model);
     freenames_family(cfg, &mut rep, &mut model, &vars);
+    crossargs::crossargs_family(cfg, &mut rep, &mut model);
   }
   rep.extra.insert("unparsable_generated".into(), json!(unparsable));
   rep.extra.insert("skipped_unsupported".into(), json!(skipped));
